@@ -369,4 +369,146 @@ theorem crcRaw_zero_ne_zero_of_feed (E : Bytes) (h : Spec.feed 0#16 (Spec.messag
   exact h0
 
 end Crc
+
+/-! ### classes of error patterns; the extractor at full length -/
+
+/-- the error pattern's set bits are non-empty and confined to 16 consecutive transmitted positions -/
+def Burst16 (E : Bytes) : Prop :=
+  (∃ k, k < 8 * E.length ∧ errBit E k = true) ∧
+  ∃ p, ∀ k, k < 8 * E.length → errBit E k = true → p ≤ k ∧ k < p + 16
+
+/-- exactly one bit of the error pattern is set -/
+def SingleBit (E : Bytes) : Prop :=
+  ∃ p, p < 8 * E.length ∧ ∀ k, k < 8 * E.length → (errBit E k = true ↔ k = p)
+
+/-- exactly two bits of the error pattern are set -/
+def DoubleBit (E : Bytes) : Prop :=
+  ∃ p q, p < q ∧ q < 8 * E.length ∧ ∀ k, k < 8 * E.length → (errBit E k = true ↔ (k = p ∨ k = q))
+
+/-- the error pattern of `n` bytes with only transmitted bit `p` set -/
+def bitError (n p : Nat) : Bytes :=
+  (List.range n).map fun i => if i = p / 8 then UInt8.ofNat (2 ^ (p % 8)) else 0
+
+namespace Crc
+
+@[simp] theorem bitError_length (n p : Nat) : (bitError n p).length = n := by simp [bitError]
+
+theorem errBit_bitError (n p k : Nat) (hk : k < 8 * n) : errBit (bitError n p) k = decide (k = p) := by
+  unfold errBit bitError
+  have hk8 : k / 8 < n := by omega
+  rw [List.getElem?_map, List.getElem?_range hk8]
+  simp only [Option.map_some, Option.getD_some]
+  by_cases h : k / 8 = p / 8
+  · rw [if_pos h]
+    have hlt : 2 ^ (p % 8) < 256 := by
+      have : p % 8 < 8 := Nat.mod_lt _ (by decide)
+      calc 2 ^ (p % 8) < 2 ^ 8 := Nat.pow_lt_pow_right (by decide) this
+        _ = 256 := rfl
+    rw [UInt8.toNat_ofNat', Nat.mod_eq_of_lt hlt, Nat.testBit_two_pow]
+    by_cases h2 : p % 8 = k % 8
+    · have : k = p := by omega
+      simp [h2, this]
+    · have : k ≠ p := by intro e; subst e; exact h2 rfl
+      simp [h2, this]
+  · rw [if_neg h]
+    have : k ≠ p := by intro e; subst e; exact h rfl
+    simp [this]
+
+theorem errBit_xorBytes (A B : Bytes) (h : A.length = B.length) (k : Nat) :
+    errBit (xorBytes A B) k = (errBit A k ^^ errBit B k) := by
+  unfold errBit xorBytes
+  rw [List.getElem?_zipWith]
+  cases hA : A[k / 8]? with
+  | none =>
+    have : B[k / 8]? = none := by
+      rw [List.getElem?_eq_none_iff] at hA ⊢; omega
+    simp [this]
+  | some a =>
+    cases hB : B[k / 8]? with
+    | none =>
+      exfalso
+      rw [List.getElem?_eq_none_iff] at hB
+      have := (List.getElem?_eq_some_iff.mp hA).1
+      omega
+    | some b => simp [UInt8.toNat_xor, Nat.testBit_xor]
+
+theorem singleBit_bitError (n p : Nat) (hp : p < 8 * n) : SingleBit (bitError n p) := by
+  refine ⟨p, by simpa using hp, ?_⟩
+  intro k hk
+  rw [bitError_length] at hk
+  rw [errBit_bitError n p k hk]; simp
+
+theorem doubleBit_bitError (n p q : Nat) (hpq : p < q) (hq : q < 8 * n) :
+    DoubleBit (xorBytes (bitError n p) (bitError n q)) := by
+  refine ⟨p, q, hpq, by simpa using hq, ?_⟩
+  intro k hk
+  have hk' : k < 8 * n := by simpa using hk
+  rw [errBit_xorBytes _ _ (by simp), errBit_bitError n p k hk', errBit_bitError n q k hk']
+  by_cases h1 : k = p
+  · have : k ≠ q := by omega
+    simp [h1]
+    omega
+  · simp [h1]
+
+/-! the extractor at full length -/
+
+theorem extract_full (f : Bytes) (h3 : 3 ≤ f.length) (hlt : f.length < usizeLimit) :
+    (CrcOk f → ∃ fr, Rtu.extractFrame f (f.length - 3) = .ok (some fr)) ∧
+    (¬ CrcOk f → ∃ e a, Rtu.extractFrame f (f.length - 3) = .err (.crc e a)) := by
+  obtain ⟨body, a, b, rfl⟩ := exists_split_last2 f (by omega)
+  have hb : 1 ≤ body.length := by simp at h3; omega
+  have hl : (body ++ [a, b]).length = body.length + 2 := by simp
+  rw [crcOk_append]
+  rw [hl] at hlt
+  have e1 : 1 + (body.length + 2 - 3) = body.length := by omega
+  unfold Rtu.extractFrame
+  rw [hl]
+  have hne : (body ++ [a, b]).isEmpty = false := by
+    cases body <;> simp
+  simp only [hne, Bool.false_eq_true, if_false, e1]
+  rw [if_neg (by omega), if_pos (by omega), List.take_left, List.drop_left]
+  have hr : read16 [a, b] 0 = .ok (rd16 a b) := rfl
+  rw [hr, Res.bind'_ok]
+  constructor
+  · intro h
+    rw [h]
+    simp only [bne_self_eq_false, Bool.false_eq_true, if_false]
+    rw [idx_eq_ok (by omega), Res.bind'_ok]
+    exact ⟨_, rfl⟩
+  · intro h
+    rw [if_pos (by simpa using h)]
+    exact ⟨_, _, rfl⟩
+
+theorem extract_full_ok (f : Bytes) (fr : Rtu.Frame)
+    (h : Rtu.extractFrame f (f.length - 3) = .ok (some fr)) :
+    3 ≤ f.length ∧ f.length < usizeLimit ∧ CrcOk f := by
+  have h3 : 3 ≤ f.length := by
+    apply Decidable.byContradiction
+    intro hn
+    unfold Rtu.extractFrame at h
+    have e : f.length - 3 = 0 := by omega
+    rw [e] at h
+    split at h
+    · simp at h
+    · split at h
+      · simp at h
+      · simp only [Nat.add_zero] at h
+        rw [if_neg (by omega)] at h
+        simp at h
+  have hlt : f.length < usizeLimit := by
+    apply Decidable.byContradiction
+    intro hn
+    unfold Rtu.extractFrame at h
+    split at h
+    · simp at h
+    · rw [if_pos (by omega)] at h
+      simp at h
+  refine ⟨h3, hlt, ?_⟩
+  apply Decidable.byContradiction
+  intro hc
+  obtain ⟨e, a, he⟩ := (extract_full f h3 hlt).2 hc
+  rw [he] at h
+  simp at h
+
+end Crc
 end Modbus
